@@ -595,6 +595,33 @@ pub fn engine_ckpt(rt: &tokio::runtime::Runtime, cases: Vec<Value>, out: &mut Nd
                     }
                     "raw_delete" => { let _ = std::fs::remove_file(root.join(o["p"].as_str().unwrap_or(""))); }
                     "raw_mkdir" => { let _ = std::fs::create_dir_all(root.join(o["p"].as_str().unwrap_or(""))); }
+                    "raw_dir_to_file" => {
+                        // the directory is replaced by a plain file: restoring anything below it must fail
+                        let d = root.join(o["p"].as_str().unwrap_or(""));
+                        let _ = std::fs::remove_dir_all(&d);
+                        let _ = std::fs::write(&d, "now a file\n");
+                    }
+                    "sabotage_store" => {
+                        // the stored copy of one covered file disappears from checkpoint i (its manifest stays)
+                        let i = o["i"].as_u64().unwrap_or(1) as usize;
+                        if let Some(id) = cp_ids.get(i - 1) {
+                            let want = o["p"].as_str().unwrap_or("").to_string();
+                            let store = root.join(".rip/checkpoints");
+                            let mut stack = vec![store];
+                            while let Some(dir) = stack.pop() {
+                                for e in std::fs::read_dir(&dir).into_iter().flatten().flatten() {
+                                    let p = e.path();
+                                    if p.is_dir() {
+                                        stack.push(p);
+                                    } else if p.to_string_lossy().contains(id.as_str()) && p.file_name().map(|n| n != "checkpoint.json").unwrap_or(false)
+                                        && p.to_string_lossy().replace('\\', "/").ends_with(&want)
+                                    {
+                                        let _ = std::fs::remove_file(&p);
+                                    }
+                                }
+                            }
+                        }
+                    }
                     "rewind" => {
                         let i = o["i"].as_u64().unwrap_or(0) as usize;
                         let id = if i == 0 { "no-such-checkpoint".to_string() } else { cp_ids.get(i - 1).cloned().unwrap_or_default() };
